@@ -23,7 +23,9 @@ func init() {
 			"(comparator) the less-function handed to sort.Slice touches the two versions only through Timestamp() and one comparison whose truth table over {older, equal, newer} puts the newer version first; the winner taken by the read and by the merge is element 0; " +
 			"(winner-flow) the entry returned by the quorum read is the winner's entry and the same winner is handed to readRepair together with the unsanitised version list (so an owner without a copy is repaired too); " +
 			"(read-repair) with ReadRepair enabled every value-returning path passes readRepair (no further gate); inside, a holder is skipped only when it has an entry with the winner's timestamp, the local branch writes under the fragment write lock, the remote branch ships winner.Encode(); " +
-			"(merge) fragmentMergeFunction stores the incoming entry only when the key is absent or the comparator picked the incoming entry, and stores nothing else.",
+			"(merge) fragmentMergeFunction stores the incoming entry only when the key is absent or the comparator picked the incoming entry, and stores nothing else; " +
+			"(sanitize-does-not-alias-input) the sanitised version list is built in storage of its own (no append onto a reslice of the collected list, which readRepair still needs with its entry-less slots); " +
+			"(read-repair-reaches-every-holder) readRepair leaves its walk over the holders early only when this member's own fragment cannot be obtained - a holder that cannot be written does not end the repair of the holders behind it.",
 		Run: func(r *core.Run) {
 			c06Comparator(r)
 			c06WinnerFlow(r)
@@ -32,6 +34,8 @@ func init() {
 			c09SanitizeKeepsVersions(r)
 			c06CollectedVersionsComplete(r)
 			c06ReadRepairOnlyCurrentHolders(r)
+			c06SanitizeDoesNotAliasInput(r)
+			c06ReadRepairReachesEveryHolder(r)
 			c04ReplicaVerbatim(r)
 			c03PreviousOwners(r)
 			tableUpdateWritesVersion(r, "update-writes-version")
